@@ -56,6 +56,21 @@ def is_oriented_manifold(nv, faces):
     return True
 
 
+def has_chord(faces):
+    """some face has two non-consecutive vertices that are joined by an edge of the mesh (then no diagonal-only triangulation of
+    that face keeps the surface a manifold)"""
+    edges = {tuple(sorted((f[j], f[(j + 1) % len(f)]))) for f in faces for j in range(len(f))}
+    for f in faces:
+        n = len(f)
+        for i in range(n):
+            for j in range(i + 2, n):
+                if (j + 1) % n == i:
+                    continue
+                if tuple(sorted((f[i], f[j]))) in edges:
+                    return True
+    return False
+
+
 class RefSurface:
     def __init__(self, nv, faces, edges=None):
         self.nv = nv
